@@ -3,28 +3,32 @@
 (* Random longer option lists for C20 (TLC -simulate, seeded): a list of n  *)
 (* in 3..8 occurrences of distinct documented options in documented forms;  *)
 (* in one mode out of four the list may contain one value that must be      *)
-(* rejected.  Every completed list is printed as one LIST line.  The        *)
-(* variables of the abstract machine are parked.                            *)
+(* rejected.  Every completed list is printed as one LIST line.  An option  *)
+(* is chosen in two steps (name, then form) to keep the number of           *)
+(* successors -simulate has to enumerate small.  The variables of the       *)
+(* abstract machine are parked.                                             *)
 (***************************************************************************)
 EXTENDS MC_Options
-VARIABLES l, n, lvl, mode, fin
-gvars == <<l, n, lvl, mode, fin, st, cs, todo, ph>>
+VARIABLES l, n, lvl, mode, pick, hasBad, fin
+gvars == <<l, n, lvl, mode, pick, hasBad, fin, st, cs, todo, ph>>
+parked == <<st, cs, todo, ph>>
 
-LegalOccs == UNION {Legal(m) : m \in Names}
-BadOccs   == UNION {Bad(m, GarbageQuick) : m \in Names}
-IsBad(o)  == o \in BadOccs
-
-LInit == /\ l = <<>> /\ fin = FALSE /\ n \in 3..8 /\ lvl \in Levels /\ mode \in 1..4
+LInit == /\ l = <<>> /\ fin = FALSE /\ pick = "" /\ hasBad = FALSE
+         /\ n \in 3..8 /\ lvl \in Levels /\ mode \in 1..4
          /\ st = S0 /\ cs = Case("backend", <<>>) /\ todo = {} /\ ph = "gen"
-LNext == /\ Len(l) < n
-         /\ \E o \in (IF mode = 4 /\ \A i \in 1..Len(l) : ~IsBad(l[i]) THEN LegalOccs \cup BadOccs ELSE LegalOccs) :
-              /\ \A i \in 1..Len(l) : l[i].n # o.n
+LName == /\ pick = "" /\ Len(l) < n
+         /\ \E m \in Names : (\A i \in 1..Len(l) : l[i].n # m) /\ pick' = m
+         /\ UNCHANGED <<l, n, lvl, mode, hasBad, fin, parked>>
+LForm == /\ pick # ""
+         /\ \E o \in Legal(pick) \cup (IF mode = 4 /\ ~hasBad THEN Bad(pick, GarbageQuick) ELSE {}) :
               /\ l' = Append(l, o)
-         /\ UNCHANGED <<n, lvl, mode, fin, st, cs, todo, ph>>
+              /\ hasBad' = (hasBad \/ o \notin Legal(pick))
+         /\ pick' = ""
+         /\ UNCHANGED <<n, lvl, mode, fin, parked>>
 \* -simulate evaluates the invariants on every successor it could pick; the completed list has
 \* exactly one successor (fin), so exactly the lists of the traces taken are printed
-LDone == /\ Len(l) = n /\ ~fin /\ fin' = TRUE
-         /\ UNCHANGED <<l, n, lvl, mode, st, cs, todo, ph>>
-LSpec == LInit /\ [][LNext \/ LDone]_gvars
+LDone == /\ Len(l) = n /\ pick = "" /\ ~fin /\ fin' = TRUE
+         /\ UNCHANGED <<l, n, lvl, mode, pick, hasBad, parked>>
+LSpec == LInit /\ [][LName \/ LForm \/ LDone]_gvars
 LEmit == fin => PrintT("LIST " \o ToJson(Case(lvl, l)))
 =============================================================================
